@@ -181,6 +181,8 @@ impl<R: Read + Seek> ReadBox<&mut R> for MetaBox {
                     current = reader.stream_position()?;
                 }
 
+                skip_bytes_to(reader, start + size)?;
+
                 Ok(MetaBox::Mdir { ilst })
             }
             _ => {
@@ -218,6 +220,8 @@ impl<R: Read + Seek> ReadBox<&mut R> for MetaBox {
 
                     current = reader.stream_position()?;
                 }
+
+                skip_bytes_to(reader, start + size)?;
 
                 Ok(MetaBox::Unknown { hdlr, data })
             }
